@@ -15,7 +15,7 @@ configuration the repository's baseline suite never compiles.  This part of the 
 
 Called from checks/c01.py: run_part(ctx) -> stats, selftest_part(ctx), replay_part(ctx, replay_object).
 Known finding C01-conflicting-spenders-one-linked (see notes/c01-coins-report.md): the law it breaks (KnownSpendersLaw) is
-applied according to known_findings.json - not listed: off; listed open: excused and reported; listed otherwise: strict.
+applied strictly (the defect was repaired in /repo, see known_findings.json "fixed"); only an entry listed open would excuse it.
 """
 import json
 import os
@@ -37,9 +37,9 @@ def finding_mode():
     if os.environ.get("VERIF_COIN_KNOWN_SPENDERS") in ("off", "excuse", "strict"):      # development aid (trying a repair)
         return os.environ["VERIF_COIN_KNOWN_SPENDERS"]
     for f in lib.load_known_findings():
-        if f.get("id") == FINDING:
-            return "excuse" if f.get("status") == "open" else "strict"
-    return "off"
+        if f.get("id") == FINDING and f.get("status") == "open":
+            return "excuse"
+    return "strict"      # the defect was repaired in /repo (known_findings.json, "fixed"): the law is applied strictly
 
 
 def trace_env(explain=False, mode=None):
